@@ -39,7 +39,11 @@ def own(h):
 
 @st.composite
 def tokens(draw):
-    x = draw(st.integers(0, 11))
+    x = draw(st.integers(0, 13))
+    if x >= 12:
+        # a tandem interpretation that is not shared structure, followed by characters the grammar stops at
+        t = draw(st.sampled_from([t for t in G.OTHER_TANDEMS if not t.startswith('*staff')]))
+        return {'t': t + draw(st.sampled_from(['_2', "'", '-B', '1', '.', 'b', 'x', '!', ' 2', 'é', '2'])), 'kind': 'kern-nonstruct'}
     if x < 4:
         c = draw(st.one_of(G.barlines(), G.clefs(), G.keysigs(), G.timesigs(), G.meters(), st.just(G.null_cell()),
                            st.just(G.nullinterp_cell()),
@@ -52,6 +56,15 @@ def tokens(draw):
             return {'t': c['t'], 'kind': 'struct', 'cat': 'BOUNDING_BOXES' if c['t'].startswith('*xywh') else 'STRUCTURAL'}
         return {'t': c['t'], 'kind': 'kern-nonstruct'}
     if x < 9:
+        y = draw(st.integers(0, 7))
+        if y == 0:
+            # a tandem interpretation that is not shared structure, followed by characters the grammar stops at
+            c = draw(G.other_tandems())
+            if not (c['t'].startswith('*staff') or c['t'].startswith('*xywh') or c['t'].startswith('*I') or c['t'].startswith('*mI')):
+                return {'t': c['t'] + draw(st.sampled_from(['_2', "'", '-B', '1', '.', 'b', 'x', '!', ' 2', 'é'])), 'kind': 'kern-nonstruct'}
+        if y == 1:
+            # cells that consist of blanks only are text as well
+            return {'t': draw(st.sampled_from([' ', '  ', '\u00a0', '\u3000', ' \u00a0 '])), 'kind': 'blank'}
         return {'t': draw(G.free_texts(sep_chars=draw(st.integers(0, 5)) == 0)), 'kind': 'free'}
     if x < 10:
         return {'t': draw(MF.malformed())['t'], 'kind': 'arbitrary'}
@@ -99,7 +112,7 @@ def check_tokens(case):
                 raise Bad('structural-category', f'{h}: {t!r} has category {tok.category.name}, documented {tk["cat"]}')
             if t not in ('=', '*', '.'):
                 keys.append([h, t])
-        elif kind in ('kern-nonstruct', 'free'):
+        elif kind in ('kern-nonstruct', 'free', 'blank'):
             if structural and kind == 'free':
                 raise Bad('harness-free-text', f'free text {t!r} is structural for the kern importer: {ks}')
             if not verbatim_own:
